@@ -125,6 +125,9 @@ def run_vft(pid, tier, res=None, finish=True):
             if cid % 211 == 0:
                 res.sample({"funcs": [(f["name"], f["cc"]) for f in vdef["vft"]["funcs"]], "impl": case["input"]["mods"][0]["impls"],
                             "expected": [w["cc"] for w in oracle["table"]], "impl_expected": oracle["implcc"]})
+    if pid == "C04":
+        from . import execrig, execplan
+        execrig.apply(pl, res, execplan.plan_vft, payload, cov)
     cov.update({"evaluations": n_checked, "distinct_nontrivial": len(distinct),
                 "rule": "every vftable block / impl function combination enumerated by TLC for MC_Vft, replayed into pyxis; "
                         "slots, conventions and wrapper shapes read from the emitted code with syn, slot offsets from the compilers",
